@@ -505,6 +505,7 @@ class ThreadPoolServer(Server):
             err_msg = "Failed to serve client for {}, caught exception".format(addrinfo)
             self.logger.exception(err_msg)
             sock.close()
+            self.clients.discard(sock)
 
 
 class ForkingServer(Server):
